@@ -260,3 +260,21 @@ def failure_then_declaration_sessions():
             if (i + j) % 4 == 0:
                 out.append([f, fails[(i + 3) % len(fails)]] + a + afters[(j + 1) % len(afters)])
     return out
+
+
+def declare_then_fail_sessions():
+    """a line that DECLARES variables (and assigns existing ones) and then fails at run time — directly, inside a call, inside a
+    loop, after output: "a line that fails has no influence on later lines beyond the assignments it completed before failing" —
+    the completed declarations and assignments are there on the next lines with their values (and nothing else changed)"""
+    fails = ["1 / 0", "[][0]", "ja + 1", "functie d(n) { als n < 1 { 1 / 0 }; d(n - 1) }; d(20)", "stel i = 0; zolang ja { i += 1; als i > 3 { 1 / 0 } }",
+             "lengte(1, 2)", "print(\"voor\"); 1 % 0"]
+    decls = ["stel p = 2", "stel p = 2; stel q = p + 1", "a = a + 40; stel p = a", "stel p = 5; p = p * 2; stel q = 1", "stel t = (t = 5) + 1 / 0" ]
+    reads = [["p"], ["p", "q"], ["[a, p]"], ["p + 1", "a"], ["stel r = 9", "r", "p"]]
+    out = []
+    for i, f in enumerate(fails):
+        for j, d in enumerate(decls):
+            line = d if "1 / 0" in d else d + "; " + f
+            rd = reads[(i + j) % len(reads)]
+            out.append(["stel a = 1", line] + rd + ["a"])
+            out.append(["stel a = 1", "stel z = 0", line, "z"] + rd)
+    return out
